@@ -42,7 +42,18 @@ RULE = ("YAML-serialisable configurations: 1..4 groups, num in {0,1,2,3,7,40}, a
         "fine (4..39 vertices / numbers, a random subset moved by 1e-12 .. 4e-9 degrees, 1e-7 .. 4e-4 m for offsets); "
         "with probability 0.4 a revision also has another seed and num; supplied as grouped / flat mapping, grouped / "
         "flat YAML stream or YAML file; each release against `python -m ladim_plugins.release` in a process of its own "
-        "and against a pristine import of the module. Non-trivial: every configuration.")
+        "and against a pristine import of the module. Attribute names with a meaning at another level of the document "
+        "(16 quick / 260 thorough configurations of 1..3 small groups, half of them one group; plus, with probability 0.2 "
+        "per group, one such attribute with a constant value in the configurations of the main loop): in 1..all groups "
+        "1..3 of the names `seed`, `columns`, `groups` (keys of the top-level mapping) and sometimes a key name of the "
+        "distribution / location mappings (distribution, mean, min, max, center, offset, knots), at group level or "
+        "under `attrs`, value 0 / integer up to 2^32-1 / float / list of num numbers / range / gaussian / dotted "
+        "function name; with and without top-level `columns` (random subset of the position columns, group_id and these "
+        "names); supplied as grouped mapping with seed, grouped mapping without seed and list of groups (caller seeds "
+        "numpy's real generator), flat mapping with / without seed when no top-level name is used at group level, each "
+        "as object, YAML stream and YAML file; list against mapping under one recorded draw stream; the file written "
+        "for the list; 3 quick / 16 thorough through the command line in a process of its own (list document, the "
+        "process seeding first / grouped document). Non-trivial: every configuration.")
 ASSUMPTIONS = ["yaml.safe_load / pandas.to_csv / the CLI are exercised, not modelled",
                "the one-argument command line prints pandas' default rendering of the table: it is compared for tables of "
                "four columns and at most 50 rows (no truncation, no wrapping), numbers at the display precision of 6 digits"]
@@ -50,6 +61,11 @@ SITE = "ladim_plugins/release/makrel.py"
 MAIN = "ladim_plugins/release/__main__.py"
 SPECIAL_SEEDS = [0, 2**32 - 1, [1, 2], 1]
 NUMS = [0, 1, 2, 3, 7, 40]
+# attribute names that have a meaning at another level of the document: the keys of the top-level mapping (inside a
+# group they are ordinary per-particle attributes: the shipped sedimentation/release.yaml has `seed: 0` in a group) and
+# the keys of the nested distribution / location mappings
+TOP_LEVEL_NAMES = ["seed", "columns", "groups"]
+NESTED_NAMES = ["distribution", "mean", "min", "max", "center", "offset", "knots"]
 
 
 def plain_config(rng, tmp=None, tag="", all_zero=False):
@@ -72,6 +88,16 @@ def plain_config(rng, tmp=None, tag="", all_zero=False):
             conf["seq"] = "numpy.arange"
         if rng.random() < 0.25:
             conf["størrelse"] = rng.choice([3, 2.5])
+        # an attribute whose name has a meaning at another level of the document (see attr_name_checks).  Every
+        # container of the main loop must be able to hold the specification: a name of the top level is put at group
+        # level only when there are several groups (a flat mapping cannot hold it), otherwise under `attrs`
+        if rng.random() < 0.2:
+            nm = rng.choice(TOP_LEVEL_NAMES + NESTED_NAMES)
+            val = rng.choice([0, 3, 2.5])
+            if nm in NESTED_NAMES or (ng > 1 and rng.random() < 0.6):
+                conf[nm] = val
+            else:
+                conf.setdefault("attrs", {})[nm] = val
         groups.append(conf)
     return groups, files
 
@@ -597,6 +623,251 @@ class Cli:
             self._finish(self.pending.pop(0))
 
 
+# ---- attribute names with a meaning at another level of the document.  Inside a group (of a list of groups or of the
+# `groups` of a mapping) `seed`, `columns` and `groups` are ordinary attributes; so are, anywhere, the key names of the
+# nested distribution / location mappings.  The specification is the same whatever container holds it.
+def named_value(rng, num):
+    """a value for an attribute of a group of `num` particles and what the column must hold for that group:
+    ("values", multiset) / ("between", lo, hi) / ("numbers",)"""
+    form = rng.choice(["zero", "int", "float", "list", "range", "gauss", "fn"])
+    if form == "list" and num == 2:
+        form = "int"            # (a list of two numbers is a range unless num = 2; kept apart)
+    if form == "zero":
+        return form, 0, ("values", [0.0] * num)
+    if form == "int":
+        v = rng.choice([1, 7, 12345, 2**31 - 1, 2**32 - 1, rng.randrange(2**32)])
+        return form, v, ("values", [float(v)] * num)
+    if form == "float":
+        v = round(rng.uniform(-50.0, 50.0), 3)
+        return form, v, ("values", [v] * num)
+    if form == "list":
+        v = [rng.randrange(100) for _ in range(num)]
+        return form, v, ("values", [float(x) for x in v])
+    if form == "range":
+        a = round(rng.uniform(0.0, 10.0), 2)
+        b = a + rng.randrange(1, 10)
+        if num == 2:
+            return form, [a, b], ("values", [a, b])     # (num = 2: the two numbers are the values)
+        return form, [a, b], ("between", a, b)
+    if form == "gauss":
+        return form, dict(distribution="gaussian", mean=5.0, std=1.0), ("numbers",)
+    return form, "numpy.arange", ("values", [float(i) for i in range(num)])
+
+
+def attempt(fn):
+    try:
+        return fn(), None
+    except Exception as e:
+        return None, repr(e)
+
+
+def judge_named_columns(ctx, table, groups, expects, site, what, cs):
+    """The table holds, for every attribute a group defines under one of the names above, a column of that name whose
+    cells of that group's particles are the specified values (independent of the implementation: the values are
+    read off the specification; rows are told apart by the constant attribute `group_id` of each group)."""
+    hdr = list(table.keys())
+    selected = cs["config"].get("columns") if isinstance(cs.get("config"), dict) else None
+    for g, exp_g in expects.items():
+        for name, exp in exp_g.items():
+            if selected is not None and name not in selected:
+                continue
+            if not ctx.oracle(name in hdr, "C18.attr_name.column_wrong", site,
+                              "%s: group %d defines the attribute %r, the table has no such column (header %r)" % (what, g, name, hdr), cs):
+                continue
+            if "group_id" in hdr:
+                rows = [r for r in range(nrows_of(table)) if float(table["group_id"][r]) == float(groups[g]["group_id"])]
+            elif len(groups) == 1:
+                rows = list(range(nrows_of(table)))
+            else:
+                continue
+            try:
+                vals = sorted(float(table[name][r]) for r in rows)
+            except (TypeError, ValueError):
+                vals = None
+            num = groups[g]["num"]
+            if vals is None or len(vals) != num:
+                good = False
+            elif exp[0] == "values":
+                good = vals == sorted(exp[1])
+            elif exp[0] == "between":
+                # numpy: low + (high - low) * u with u in [0, 1); 1e-9 covers the rounding of the two operations
+                good = all(exp[1] - 1e-9 <= v <= exp[2] + 1e-9 for v in vals)
+            else:
+                good = all(math.isfinite(v) for v in vals)
+            ctx.oracle(good, "C18.attr_name.column_wrong", site,
+                       "%s: attribute %r of group %d (%d particles, specified %r): column cells of that group %r"
+                       % (what, name, g, num, groups[g].get(name, groups[g].get("attrs", {}).get(name)),
+                          None if vals is None else vals[:8]), cs)
+
+
+def attr_name_checks(ctx, mk, yaml, tmp, cli):
+    site = SITE + "::load_config"
+    n_cli = 0
+    for c in range(ctx.n(16, 260)):
+        ng = ctx.rng.choice([1, 1, 1, 2, 2, 3])
+        groups = []
+        for g in range(ng):
+            kind = ctx.rng.choice(RANDOM_KINDS) if (g == 0 and ctx.rng.random() < 0.7) else ctx.rng.choice(["none"] + RANDOM_KINDS)
+            groups.append(random_kind_group(ctx.rng, kind, g, tmp, "an%d" % c))
+        expects = {}
+        carriers = [g for g in range(ng) if ctx.rng.random() < 0.6] or [ctx.rng.randrange(ng)]
+        implicit_top0 = False
+        for g in carriers:
+            names = ctx.rng.sample(TOP_LEVEL_NAMES, ctx.rng.choice([1, 1, 2, 3]))
+            if ctx.rng.random() < 0.3:
+                names.append(ctx.rng.choice(NESTED_NAMES))
+            for nm in names:
+                form, val, exp = named_value(ctx.rng, groups[g]["num"])
+                where = "attrs" if ctx.rng.random() < 0.3 else "group"
+                if where == "attrs":
+                    groups[g].setdefault("attrs", {})[nm] = val
+                else:
+                    groups[g][nm] = val
+                    if g == 0 and nm in TOP_LEVEL_NAMES:
+                        implicit_top0 = True
+                expects.setdefault(g, {})[nm] = exp
+                ctx.branch("attr_name.%s.%s" % (nm if nm in TOP_LEVEL_NAMES else "nested_key", where))
+                ctx.branch("attr_name.value." + form)
+        # a flat mapping holds the specification when no top-level name is used at group level
+        flat_ok = ng == 1 and not implicit_top0
+        seed = ctx.rng.choice(SPECIAL_SEEDS) if ctx.rng.random() < 0.3 else ctx.rng.randrange(2**32)
+        cols = None
+        if ctx.rng.random() < 0.4:
+            # (every name is a column of the table: defined by at least one group)
+            pool = ["date", "longitude", "latitude", "depth", "group_id"] + sorted(set(n for e in expects.values() for n in e))
+            cols = ctx.rng.sample(pool, ctx.rng.randrange(1, len(pool) + 1))
+
+        def mapping(with_seed, with_cols=True, flat=False):
+            d = {}
+            if with_seed:
+                d["seed"] = copy.deepcopy(seed)
+            if with_cols and cols is not None:
+                d["columns"] = list(cols)
+            if flat:
+                d.update(copy.deepcopy(groups[0]))
+            else:
+                d["groups"] = copy.deepcopy(groups)
+            return d
+        conf = mapping(True)
+        cs = dict(config=conf)
+        gj = {}
+        for g_ in groups:
+            if isinstance(g_["location"], str):
+                with open(g_["location"], encoding="utf-8") as f:
+                    gj[g_["location"]] = f.read()
+        if gj:
+            cs["geojson_files"] = gj
+        ctx.case(key=("attr_name", repr(conf)), nontrivial=True)
+        ctx.branch("attr_name"); ctx.branch("attr_name.groups.%d" % ng)
+        ctx.branch("attr_name.columns" if cols is not None else "attr_name.default_columns")
+        ref, err = attempt(lambda: mk.make_release(mapping(True)))
+        ctx.oracle(err is None, "C18.attr_name.valid_rejected", site,
+                   "the grouped mapping with a seed is rejected (%s): a group may define an attribute of any name" % err, cs)
+        ref_nc, err_nc = (ref, err) if cols is None else attempt(lambda: mk.make_release(mapping(True, with_cols=False)))
+        if cols is not None:
+            ctx.oracle(err_nc is None, "C18.attr_name.valid_rejected", site,
+                       "the grouped mapping with a seed, without `columns`, is rejected (%s)" % err_nc, cs)
+        if ref is None or ref_nc is None:
+            continue
+        judge_named_columns(ctx, ref, groups, expects, site, "grouped mapping with seed", cs)
+        # (name, factory of a fresh object, carries the seed, keeps `columns`)
+        forms = [("grouped", lambda: mapping(True), True, True),
+                 ("grouped_seedless", lambda: mapping(False), False, True),
+                 ("list", lambda: copy.deepcopy(groups), False, False)]
+        if flat_ok:
+            forms += [("flat", lambda: mapping(True, flat=True), True, True),
+                      ("flat_seedless", lambda: mapping(False, flat=True), False, True)]
+            ctx.branch("attr_name.flat")
+        unicode_yaml = bool(c % 2)
+        for name, make, seeded, keeps_cols in forms:
+            want = ref if keeps_cols else ref_nc
+            ytext = yaml.safe_dump(make(), sort_keys=False, allow_unicode=unicode_yaml)
+            for via in ("object", "yaml_stream", "yaml_file"):
+                if via == "object":
+                    supply = make
+                elif via == "yaml_stream":
+                    supply = lambda: io.StringIO(ytext)
+                else:
+                    yfn = os.path.join(tmp, "attr_name_%s.yaml" % name)
+                    with open(yfn, "w", encoding="utf8") as f:
+                        f.write(ytext)
+                    supply = lambda: yfn
+                # a container that carries the seed does not depend on the generator's state (put to some other
+                # state here); for one that does not, the caller seeds (as in seedless_checks)
+                s0 = 424242 if seeded else seed
+                what = "np.random.seed(%r); make_release(<%s, %s>)" % (s0, name, via)
+                scs = dict(cs, container=name, via=via, caller_seed=s0, supplied=ytext)
+                got, err = attempt(lambda: caller_seeded(s0, lambda: mk.make_release(supply())))
+                ctx.branch("attr_name.%s.%s" % (name, via))
+                if not ctx.oracle(err is None, "C18.attr_name.valid_rejected", site,
+                                  "%s is rejected (%s), the grouped mapping with seed %r gives a table" % (what, err, seed), scs):
+                    continue
+                ok, msg = tables_equal(want, got)
+                ctx.oracle(ok, "C18.attr_name.%s.%s_differs" % (name, via), site,
+                           "%s differs from make_release(dict(seed=%r, %sgroups=...)): %s"
+                           % (what, seed, "columns=..., " if (keeps_cols and cols is not None) else "", msg), scs)
+                if ok:
+                    ok, msg = types_equal(want, got)
+                    ctx.oracle(ok, "C18.container.cell_type_differs", site, "%s: %s" % (what, msg), scs)
+                judge_named_columns(ctx, got, groups, expects, site, what,
+                                    scs if keeps_cols else dict(scs, config={k: v for k, v in conf.items() if k != "columns"}))
+        # list of groups against the mapping under one recorded draw stream (as in the main loop)
+        s2 = ctx.sub_seed()
+
+        def recorded(make):
+            def go():
+                with RngRecorder(s2):
+                    return mk.make_release(make())
+            return attempt(go)
+        a, ea = recorded(lambda: copy.deepcopy(groups))
+        b, eb = recorded(lambda: dict(groups=copy.deepcopy(groups)))
+        ok, msg = (False, "list: %s, mapping: %s" % (ea, eb)) if (a is None or b is None) else tables_equal(a, b)
+        ctx.oracle(ok, "C18.container.list_differs", site, msg, dict(cs, draw_seed=s2))
+        # the file written for the list of groups against the text the seeded mapping writes
+        h_ref = io.StringIO(); mk.make_release(mapping(True, with_cols=False), h_ref)
+        want_text = h_ref.getvalue().replace("\r\n", "\n")
+        p_out = os.path.join(tmp, "attr_name_out.rls")
+        if os.path.exists(p_out):
+            os.remove(p_out)
+        _, err = attempt(lambda: caller_seeded(seed, lambda: mk.make_release(copy.deepcopy(groups), p_out)))
+        got_text = None
+        if os.path.exists(p_out):
+            with open(p_out, encoding="utf8") as f:
+                got_text = f.read()
+        ctx.oracle(got_text == want_text, "C18.attr_name.list.file_differs", SITE + "::make_release",
+                   "np.random.seed(%r); make_release(<list of groups>, path) writes another file than make_release(dict(seed=%r, groups=...), handle) (%s)"
+                   % (seed, seed, err), dict(cs, container="list", caller_seed=seed))
+        # the command line in a process of its own: the list document (the process seeds first), the grouped document
+        if n_cli < ctx.n(3, 16) and (ng == 1 or n_cli % 3 == 2):
+            n_cli += 1
+            as_list = n_cli % 2 == 1
+            ctx.branch("attr_name.cli." + ("list" if as_list else "grouped"))
+            p_in = os.path.join(tmp, "attr_name_cli%d.yaml" % c); p_cli = os.path.join(tmp, "attr_name_cli%d.rls" % c)
+            doc = copy.deepcopy(groups) if as_list else mapping(True, with_cols=False)
+            dtext = yaml.safe_dump(doc, sort_keys=False, allow_unicode=unicode_yaml)
+            with open(p_in, "w", encoding="utf8") as f:
+                f.write(dtext)
+            if as_list:
+                code = ("import sys, runpy, numpy; numpy.random.seed(%r); sys.argv[1:] = [%r, %r]; "
+                        "runpy.run_module('ladim_plugins.release', run_name='__main__')" % (seed, p_in, p_cli))
+                args = [sys.executable, "-c", code]
+            else:
+                args = [sys.executable, "-m", "ladim_plugins.release", p_in, p_cli]
+
+            def then(rc, out, serr, p_cli=p_cli, want_text=want_text, as_list=as_list, seed=seed,
+                     ccs=dict(cs, cli_yaml=dtext, caller_seed=seed if as_list else None)):
+                got = None
+                if os.path.exists(p_cli):
+                    with open(p_cli, encoding="utf8") as fh:
+                        got = fh.read()
+                ctx.oracle(rc == 0 and got == want_text, "C18.attr_name.cli_differs", MAIN,
+                           "%s on the %s document writes another file than make_release(dict(seed=%r, groups=...), handle) (rc=%d %s)"
+                           % ("numpy.random.seed(%r) then `python -m ladim_plugins.release` (run_module)" % (seed,) if as_list
+                              else "`python -m ladim_plugins.release`", "list" if as_list else "grouped", seed, rc, serr[-200:]), ccs)
+            cli.launch(args, then)
+    cli.drain()
+
+
 def named_keys(text, keys):
     return set(k for k in keys if k in text)
 
@@ -948,6 +1219,9 @@ def run(ctx):
                 ref = mk.make_release(copy.deepcopy(conf))
                 # (whether the table does depend on the caller's seed is counted: branch seedless.random_content)
                 seedless_checks(ctx, mk, yaml, tmp, groups, cols, seed, ref, cs, bool(rep % 2))
+        # ---- attributes named like the keys of another level of the document (`seed`, `columns`, `groups` inside a
+        # group; keys of distribution / location mappings), 1..3 groups, in every container that can hold them
+        attr_name_checks(ctx, mk, yaml, tmp, cli)
         # ---- the history of the process: near-identical specifications one after the other, each against a process of its own
         history_checks(ctx, mk, yaml, tmp)
         # ---- error path
